@@ -405,11 +405,12 @@ func census() ([]Leak, bool) {
 	}
 }
 
-// parkedStates are the wait reasons of a goroutine that only another goroutine (or nobody) can wake.
+// parkedStates are the wait reasons of a goroutine that only another goroutine (or nobody) can wake by a
+// channel operation.  Semaphore waits (mutexes such as the recorder's, WaitGroups, runtime semaphores) are
+// transient here and count as busy.
 var parkedStates = map[string]bool{
-	"chan receive": true, "chan send": true, "select": true, "semacquire": true,
-	"sync.WaitGroup.Wait": true, "sync.Mutex.Lock": true, "sync.RWMutex.Lock": true, "sync.RWMutex.RLock": true,
-	"sync.Cond.Wait": true, "chan receive (nil chan)": true, "chan send (nil chan)": true, "select (no cases)": true,
+	"chan receive": true, "chan send": true, "select": true,
+	"chan receive (nil chan)": true, "chan send (nil chan)": true, "select (no cases)": true,
 }
 
 func parseStacks(dump string, me int) (leaks []Leak, busy bool) {
